@@ -277,8 +277,52 @@ func runC03(c *Ctx) {
 		strs = append(strs, f)
 	}
 	sres := c.RunE1(strs, false, nil)
-	c.AddE1(sres, true)
-	c.R.Notes["string_methods_informational"] = len(strs)
+	// Clause D. String() is interpreted with an ARBITRARY receiver, which is more than the property asks (it asks for
+	// parsed values only): whatever is proven this way holds for parsed values too, so those obligations are armed.
+	// Three re-slices of the value's own re-encoding are safe only for field lengths that Parse establishes; they stay
+	// informational (one line of reason each).
+	needsParsed := map[string]string{
+		"(*protocol/model.T0x0100).String":             "re-slices its own Encode() at offsets computed from the parsed manufacturer/model/ID lengths",
+		"(*protocol/model.T0x0102).String":             "re-slices its own Encode() behind AuthCodeLen, which equals len(AuthCode) only for parsed values",
+		"(*protocol/model.T0x0200LocationItem).String": "re-slices its own Encode() at the fixed BCD time window, 6 bytes only for a parsed DateTime",
+	}
+	c.R.Rules["E1.text"] = "String() of every message type is free of index/slice/nil/conversion panics for an arbitrary receiver (a superset of the parsed values the property quantifies over), including the helpers it calls (Time2BCD, BCD2Time, Bcd2Dec, …)"
+	nArmed, nInfo := 0, 0
+	for _, r := range sres {
+		for _, o := range r.Obls {
+			key := r.A.Key(o)
+			st, detail := report.Discharged, ""
+			if !o.OK {
+				st = report.Violated
+				detail = "entry: " + shortFn(r.Fn) + "\ncall path: " + o.Ctx + "\n" + o.Detail
+			}
+			why, exempt := "", false
+			for f, w := range needsParsed {
+				if o.Rule == "E1.slice" && strings.HasPrefix(key, f+" / ") {
+					why, exempt = w, true
+				}
+			}
+			if exempt {
+				nInfo++
+				if detail != "" {
+					detail += "\n(informational: " + why + ")"
+				}
+				c.R.AddInfo(o.Rule, key, c.P.RelPos(o.Instr.Pos()), st, detail)
+				continue
+			}
+			nArmed++
+			c.R.Add(o.Rule, key, c.P.RelPos(o.Instr.Pos()), st, detail)
+		}
+		for _, u := range dedupe(r.Undecided) {
+			c.R.Add("E1.undecided", shortFn(r.Fn)+" / "+u, "", report.Undecided, u)
+		}
+	}
+	c.R.Notes["string_methods"] = len(strs)
+	c.R.Notes["string_obligation_instances_armed"] = nArmed
+	c.R.Notes["string_obligation_instances_informational"] = nInfo
+	if len(strs) < 40 {
+		c.R.Fatal("only %d String() methods found in protocol/model (confirmed by hand: 47)", len(strs))
+	}
 	c.R.Require("E1.index", 60, "")
 	c.R.Require("E1.slice", 150, "")
 	c.R.Require("E1.precond", 60, "")
@@ -287,7 +331,7 @@ func runC03(c *Ctx) {
 	c.R.Explain = "Clause A (no panic, no read beyond len) by abstract interpretation of every decoder entry point with arbitrary body bytes, " +
 		"arbitrary receiver contents, every dialect and version (selectors are unconstrained receiver/header fields); clause B follows from A because " +
 		"re-slices are proven against len, never cap; clause C (history independence) by taint tracking of the receiver's initial contents to " +
-		"successful returns and to branch conditions. String() totality (clause D) is reported as informational only. Termination is not decided."
+		"successful returns and to branch conditions. clause D (String() totality) by abstract interpretation of every String() method with an arbitrary receiver, helpers included; three re-slices that are safe only for parsed field lengths are reported as informational. Termination is not decided."
 }
 
 func sortedKeys(m map[string]int) []string {
